@@ -2,8 +2,12 @@
 NetworkingThread._run_q_read / add_outbound_message, without sockets and threads.
 
 stdin : {"pairs": [{"mb": str|None, "a": str, "b": str}],
+         "filters": [{"svcs": [{"epr", "types", "scopes": None|{"mb", "text"}}], "types": None|[..], "scopes": None|{"mb", "text"}}],
          "seqs":  [{"cap": int, "events": [ev, ...]}]}      events: see run_seq
-stdout: {"pairs": [{"res": 0|1|"raise:<kind>", ...}], "seqs": [trace], "matchby": {...}}"""
+stdout: {"pairs": [{"res": 0|1|"raise:<kind>", ...}],
+         "filters": [{"in_list": [[0|1|2 per requested scope] per service], "matches": [0|1|2 per service],
+                      "kept": [epr]|None, "split": {text: verdict}}],
+         "seqs": [trace], "matchby": {...}}"""
 import collections
 import json
 import logging
@@ -60,6 +64,34 @@ def qn(t):
     return etree.QName(t[0], t[1])
 
 
+def verdict(f):
+    try:
+        return int(bool(f()))
+    except Exception:  # noqa: BLE001
+        return 2
+
+
+def run_filter_case(c):
+    """_is_scope_in_list, matches_filter and filter_services on the same services / filter."""
+    svcs = [wsdimpl.Service([qn(t) for t in s['types']], mk_scopes(s['scopes']), ['http://10.0.0.1:1/x'], s['epr'], 1,
+                            metadata_version=1) for s in c['svcs']]
+    types = None if c['types'] is None else [qn(t) for t in c['types']]
+    scopes = mk_scopes(c['scopes'])
+    in_list = [[] if scopes is None else
+               [verdict(lambda u=u, sv=sv: wsdimpl._is_scope_in_list(u, scopes.MatchBy, sv.scopes)) for u in scopes.text]
+               for sv in svcs]
+    matches = [verdict(lambda sv=sv: wsdimpl.matches_filter(sv, types, scopes)) for sv in svcs]
+    try:
+        kept = [sv.epr for sv in wsdimpl.filter_services(svcs, types, scopes)]
+    except Exception:  # noqa: BLE001
+        kept = None
+    texts = set(c['scopes']['text'] if c['scopes'] else [])
+    for s in c['svcs']:
+        texts.update(s['scopes']['text'] if s['scopes'] else [])
+    return {'in_list': in_list, 'matches': matches, 'kept': kept, 'split': {t: split_verdict(t) for t in sorted(texts)},
+            'matchby_seen': None if scopes is None else scopes.MatchBy}
+
+
 def mk_scopes(sc):
     if sc is None:
         return None
@@ -91,6 +123,14 @@ def mk_incoming(mid, m):
     elif kind == 'bye':
         payload = wsd_types.ByeType()
         payload.EndpointReference.Address = m['epr']
+        # the optional parts of ByeType
+        if m.get('types') is not None:
+            payload.Types = [qn(t) for t in m['types']]
+        if m.get('scopes') is not None:
+            payload.Scopes = mk_scopes(m['scopes'])
+        if m.get('xaddrs') is not None:
+            payload.XAddrs = list(m['xaddrs'])
+        payload.MetadataVersion = m.get('mdv')
         to = wsdimpl.ADDRESS_ALL
     elif kind == 'probe':
         payload = wsd_types.ProbeType()
@@ -267,6 +307,7 @@ def run_seq(c):
 
 
 out = {'pairs': [run_pair(c) for c in req.get('pairs', [])],
+       'filters': [run_filter_case(c) for c in req.get('filters', [])],
        'seqs': [run_seq(c) for c in req.get('seqs', [])],
        'pool_split': {t: split_verdict(t) for t in req.get('scope_pool', [])},
        'matchby': {m.name: m.value for m in wsdimpl.MatchBy}}
